@@ -3,7 +3,7 @@ from hypothesis import strategies as st
 from ..runner import Outcome
 from .. import ops as O, eqv, faults
 from ..doc import replay_history
-from ..hist import HistoryRun, bundle_sig, judge_state_diff, is_cycle_error_pair, col_kind, stale_cells_of, made_formula_with_type_change
+from ..hist import HistoryRun, bundle_sig, judge_state_diff, is_cycle_error_pair, col_kind, stale_cells_of, made_formula_with_type_change, is_keyerror
 from ..invariants import schema_mismatch
 
 ID = 'C04'
@@ -175,6 +175,13 @@ def run_case(case):
   elif r.ok:
     structural, cells = eqv.cells_diff(twin_snap, hr.doc.snapshot())
     real = [x for x in cells if not is_cycle_error_pair(x[3], x[4])]
+    if real and not structural and all(is_keyerror(x[3]) != is_keyerror(x[4]) and
+                                       col_kind(twin_snap, x[0], x[1]) == 'formula' for x in real):
+      # a lookup on a column that the bundle removes: whether the formula notices (KeyError) or keeps its old result
+      # depends on the state of the lookup index, which the failed attempts rebuilt on the subject but not on the
+      # twin - the listed C05 finding lookup-KeyError-stale, not a trace of the failed call
+      out.cls('lookup-KeyError-stale-on-one-side(charged to C05)')
+      real = []
     if structural or real:
       out.fail('C04:not-usable:result-differs:' + bundle_sig(uas),
                'after failed attempts bundle %r gives a different document than on the twin' % (uas,),
